@@ -11,6 +11,8 @@ TECH = "deterministic simulation with fault injection: seeded search over schedu
 CLAIMED = {
  "C01": ("exploration", "5.C01", "the real HybridCache (memory -> keeper -> block engine with flushers, reclaimers, recovery, tombstone log) over the simulated device, one sequential client plus foyer's background tasks; every interleaving of the client with eviction hand-off, flusher batching, device completion order, reclaim, and graceful restarts is a scheduler/io decision; every value is tagged (key, version), every lookup result is judged inline against the sequential reference model with the property's exclusions (overload sheds per key).",
          "value oracle needs self-describing values (>= 20 bytes); empty values are not part of the workload; multi-client hybrid histories are not claimed"),
+ "C15": ("exploration", "5.C15", "short histories ending in close() (+ optional writes to fresh keys / repeated close) and reopen on the same simulated image, both policies, flush_on_close on/off; entries resident at close must be retrievable with their latest value after real recovery; nothing may be handed to the disk tier by close() when flushing is off, by a repeated close(), or after close() returned.",
+         "devices are sized so that no reclaim happens in C15 cases (the property's own exclusion); post-close writes only touch fresh keys"),
  "C16": ("exploration", "5.C16", "listener, weighter, memory filter, storage filters and the destructors of keys and values first read the per-task count of held foyer locks (a direct, timing-free detector) and then re-enter the same single-shard cache; shuttle's non-reentrant locks turn a callback under a write lock into an immediate deadlock report; multi-client runs look for lock-order cycles.",
          "locks counted are the ones foyer takes through the verif shims (all parking_lot/std locks of foyer-memory and foyer-storage); mea's async mutex in the tombstone log is not counted"),
  "C02": ("exploration", "5.C02", "seeded search over thread interleavings of 2-4 client threads (plus foyer's own fetch tasks and resize threads) against the real Cache for all five algorithms; per-key Wing-Gong linearizability search against an atomic register whose reads may miss; handles re-read at quiescence. Sampling, not proof.",
@@ -21,6 +23,8 @@ CLAIMED = {
          "origin futures are harness futures; cancellation = abort of the spawned fetch task at its next poll"),
  "C11": ("exploration", "5.C11", "every ordering of {fetch starts, explicit insert completes, origin resolves ok/err (with a preemption point inside its final poll), further lookups} for 1-3 waiters, all algorithms; premise evaluated on event sequence numbers; late result must never be delivered or cached.",
          "origin futures are harness futures with a sync preemption point in their last poll"),
+ "C12": ("exploration", "5.C12", "short hybrid histories (each placement advice, get, get_or_fetch hit/miss, evictions, close) under both policies, admission admit / reject / throttle, probation-marking pickers; every device data write is parsed by an independent parser and attributed to (key, version, engine sequence); licences are derived from the recorded inserts / fresh fetches / evictions (with the age the looked-up handle reported); unlicensed writes, missing licensed writes (by the next wait/close after submission), in-memory-only entries on disk, on-disk-advised entries resident in memory and origin polls while the disk lookup is held are violations.",
+         "compression off in C12 cases so that values are readable in the write log; a hand-over counts from the submission probe (foyer_verif hook)"),
  "C13": ("exploration", "5.C13", "conservation over the recorded listener / pipe events: every admitted version leaves exactly once with the matching reason, never before a lookup that still finds it, Evict leavers (incl. evict_all, flush, resize, disk-only drop) offered to the pipe exactly once, others never; single- and multi-client, cache drop included.",
          "recording EventListener and Pipe; phantom (disk-only / filter-rejected) entries are judged on the pipe offer only"),
  "C17": ("exploration", "5.C17", "keys built to collide (all 64 bits, or same shard) under a harness hasher; memory: linearizability per key plus 'nothing lost with ample capacity'; hybrid: value oracle of C01 incl. write queue and restart.",
@@ -32,7 +36,7 @@ CLAIMED = {
 NOT_APPLICABLE = {
  "C14": "pure function of the operation sequence for a single shard: no schedule, clock, I/O or fault enters it; deciding it needs five reference implementations plus input generation (model-based testing), not simulation. Its concurrent clauses are covered by C18 (LRU never evicts a held looked-up entry) and C05 (eviction minimality / capacity bound).",
 }
-PENDING = {k: 'check not built yet at this commit (work in progress; see DESIGN.md section 5)' for k in ['C03','C04','C07','C08','C09','C10','C12','C15']}
+PENDING = {k: 'check not built yet at this commit (work in progress; see DESIGN.md section 5)' for k in ['C03','C04','C07','C08','C09','C10']}
 
 def entry(pid, v):
     cat, ref, text, note = v
